@@ -25,8 +25,9 @@ const quantum = 500 * time.Millisecond
 
 // TimeStep is one step of the time plan of a long-running process (pause).
 type TimeStep struct {
-	AdvanceS int `json:"advance_s,omitempty"` // let simulated time pass
-	JumpS    int `json:"jump_s,omitempty"`    // step the wall clock (suspend/resume, NTP)
+	AdvanceS int        `json:"advance_s,omitempty"` // let simulated time pass
+	JumpS    int        `json:"jump_s,omitempty"`    // step the wall clock (suspend/resume, NTP)
+	Edit     *EditFault `json:"edit,omitempty"`      // somebody else changes a file while the process runs
 }
 
 // ProcSpec is everything that decides one simulated process.
@@ -45,6 +46,7 @@ type ProcSpec struct {
 	Env      map[string]string
 	Steps    []TimeStep // for pause / --follow: time plan, then SIGINT
 	LongRun  bool       // process is expected to run until SIGINT
+	OnEdit   func(e *EditFault, readsSoFar, writesSoFar int) // applies a mid-run edit (controller context: everybody else is blocked)
 }
 
 // Decision is one scheduler decision: who was parked, who was picked.
@@ -275,6 +277,9 @@ func runProc(spec *ProcSpec) (res ProcResult) {
 				steps = steps[1:]
 				if st.JumpS != 0 {
 					s.Jump(time.Duration(st.JumpS) * time.Second)
+				}
+				if st.Edit != nil && spec.OnEdit != nil {
+					spec.OnEdit(st.Edit, s.ReadCalls(), s.WriteCalls())
 				}
 				if st.AdvanceS > 0 {
 					advancing = true
